@@ -4,7 +4,14 @@ CONFIG = {
     "lean_modules": ["SA.Props.C13"],
     "level_text": "Proved in Lean over every history of messages (any name/type/source address, any total codec behaviour: hypothesis Codec.Total, see C12), application-side "
                   "Close/Write calls, clock advances and runs of the pruning task: C13_reachable_invariant + C13_ids_distinct (live slot i holds a "
-                  "session with id i; no session in two live slots), C13_spoof_rejected (a message carrying a live id from a non-owner address "
+                  "session with id i; no session in two live slots), C13_open_returns_free_id (for EVERY state, codec and message: an answer v:OK:uid "
+                  "means that no live session held uid immediately before - whatever the addresses, in particular when the sender already owns live "
+                  "sessions - and that live slot uid now holds a session object that did not exist before, owned by the sender, with empty queues, all "
+                  "other live slots as they were; by showing that hVersion -> newUser is the only source of a version answer), "
+                  "C13_two_opens_two_sessions (two successful opens in a row, from equal or different addresses: different identifiers, two live "
+                  "objects), C13_newUser_only_fresh (regenerated shape fact: newUser returns only the session it has just created in an empty slot and "
+                  "sent to accept), C13_witness_shared_address (kernel-checked: the allocation that first looks for a data-less live session of the "
+                  "same address gives two opens identifier 0 and one object), C13_spoof_rejected (a message carrying a live id from a non-owner address "
                   "leaves the whole server state equal and is answered BADIP/BADCODEC/dropped, by cases over the command table), "
                   "C13_closed_id_inert (an id without live session: state equal, BADCONN/BADUSER), C13_foreign_message_preserves (no message "
                   "changes a session of another address or its live slot), C13_foreign_close_harmless (Close() of another session object, even "
@@ -25,13 +32,19 @@ CONFIG = {
     "components": [{"name": "dnssess", "timeout": {"quick": 300, "thorough": 1200}},
                    {"name": "dnsexpire", "timeout": {"quick": 60, "thorough": 400}}],
     "rule": "dnssess: enumerated scenarios (id re-use by the same / another address followed by every session-bound command from owner, old owner "
-            "and stranger and a second Close() of the old object; spoof table against a session with pending data; 1297 version requests = server "
+            "and stranger and a second Close() of the old object; spoof table against a session with pending data; 2 or 3 opens from ONE address arriving "
+            "before anything moved / after polls and options only / after upstream payload / after downstream payload on the first session, then "
+            "every application writes its own bytes and packets with all identifiers are interleaved; 1297 version requests = server "
             "full) + 700 (quick) / 6000 (thorough) random histories of 4-70 ops over 3 addresses and up to 6 sessions: version (incl. wrong version), "
             "packets (in-order / future / replayed / out-of-window sequence numbers, arbitrary acks), set-options (close, flags, all 8 upstream codecs, "
             "T/S/U downstream, fragment sizes 0,1,..,65535,65536,2^31,2^32-2), fragment-size tests, upstream/downstream codec tests (valid and unknown "
             "letters), application Close()/Write; ids 0..1295 incl. 35/36/1295; every known query type + unknown ones. non-trivial = at least one "
             "session-bound command succeeded; distinct = distinct op line. Monitor per op: sessions of other owners and retired sessions byte-identical "
-            "(incl. last-contact time), ids distinct, no object both live and retired, no success answer to an address without live session, no panic, "
+            "(incl. last-contact time), a message changes at most the session holding the identifier it carries (also among sessions of one address), "
+            "every v:OK:<id> names an identifier no live session held and exactly one new connection comes out of the real Accept() (that id, that owner, "
+            "the live object of that slot, empty streams, never handed out before), a chunk handed out in an answer to identifier i is the chunk the "
+            "application wrote to the session holding i (per-object ledger), ids distinct, no object both live and retired, no success answer to an "
+            "address without live session, no panic, "
             "allocation per message <= 24 MiB. dnsexpire (thorough only): one real-time history across a run of the real pruning goroutine.",
     "trusted_base": COMMON_TB + ["models SA.Model.DnsServer / SA.Model.DnsSessions hand-written; tied by per-op comparison of answers and of the full session snapshot",
                                  "codecs (internal/util/enc and third-party base32/64/85/91/128) are a parameter of the model: the op line carries what the real Decode returned",
